@@ -19,7 +19,7 @@ OUTSIDE = ['IK inside histories (IK is C07; its solvers are numeric)', 'floating
            'joint values with |theta_i| * |w_i| inside (0, 1e-6)']
 ASSUMPTIONS = ['summary mode for Exp/Log of composed rotations (C01 contracts)', 'random.uniform returns an arbitrary value in [a, b]']
 EXPLORER_DEFAULTS = {'quick': dict(prove_timeout_ms=30000, time_budget_s=900, max_paths=200, max_decisions=80),
-                     'thorough': dict(prove_timeout_ms=120000, time_budget_s=3000, max_paths=1500, max_decisions=120)}
+                     'thorough': dict(prove_timeout_ms=120000, time_budget_s=1200, max_paths=1500, max_decisions=120)}
 TOL = '1e-7'
 
 
